@@ -2,7 +2,7 @@ SPEC = dict(
     claimed=True,
     title='Stored fan data round-trips and is isolated per fan and per kind',
     props_file='Props/C14.v', props_mod='Props.C14',
-    proof_files=['Proofs/Persist.v', 'Drv/Persist.v'],
+    proof_files=['Proofs/Persist.v', 'Proofs/PersistDrv.v', 'Drv/Persist.v'],
     tie_vo=[],
     drivers=[dict(name='persist', drv_mod='Drv.Persist', drv_file='Drv/Persist.v', shard=40,
                   args={'quick': ['n=150', 'steps=14', 'kills=30', 'killops=40'],
